@@ -308,6 +308,10 @@ func propC16(t *rapid.T) {
 		c.Twice = true
 		ev.Class("decoy registrations (replaced set, multi-token call)")
 	}
+	if c.Entry == "VStruct" && !c.Twice && rapid.IntRange(0, 3).Draw(t, "lateFill") == 1 {
+		c.LateFill = true
+		ev.Class("rule sets handed over empty and filled before Valid")
+	}
 	msg, res, skipped := checkC16(c)
 	if skipped != "" {
 		ev.Excluded(skipped)
